@@ -3,7 +3,7 @@ from threading import RLock
 from typing import Any
 
 from .database import DataBase
-from .ldm_classes import Filter, RequestDataObjectsReq, Utils
+from .ldm_classes import Filter, FilterStatement, RequestDataObjectsReq, Utils
 from .ldm_constants import OPERATOR_MAPPING
 
 
@@ -50,6 +50,36 @@ class DictionaryDataBase(DataBase):
             return OPERATOR_MAPPING[operator](query_with_attribute, ref_value)
         raise ValueError(f"Invalid operator: {operator}")
 
+    def _statement_matches(self, data: dict, statement: FilterStatement) -> bool:
+        """
+        Evaluate one filter statement on one data container.
+
+        A data container that lacks the attribute, or whose value cannot be compared with the reference value,
+        does not match (it must not make the whole search fail).
+
+        Parameters
+        ----------
+        data : dict
+            The data container.
+        statement : FilterStatement
+            The filter statement.
+
+        Returns
+        -------
+        bool
+            True if the data container satisfies the statement.
+        """
+        try:
+            return bool(
+                self._create_query_search(
+                    self._get_nested(data, str(statement.attribute)),
+                    str(statement.operator),
+                    statement.ref_value,
+                )
+            )
+        except (KeyError, IndexError, TypeError):
+            return False
+
     def _filter_data(
         self, data_filter: Filter, database: list[dict]
     ) -> tuple[dict, ...]:
@@ -57,45 +87,15 @@ class DictionaryDataBase(DataBase):
         if data_filter.filter_statement_2 is not None:
             if str(data_filter.logical_operator) == "and":
                 for data in database:
-                    if self._create_query_search(
-                        self._get_nested(
-                            data, str(data_filter.filter_statement_1.attribute)
-                        ),
-                        str(data_filter.filter_statement_1.operator),
-                        data_filter.filter_statement_1.ref_value,
-                    ) & self._create_query_search(
-                        self._get_nested(
-                            data, str(data_filter.filter_statement_2.attribute)
-                        ),
-                        str(data_filter.filter_statement_2.operator),
-                        data_filter.filter_statement_2.ref_value,
-                    ):
+                    if self._statement_matches(data, data_filter.filter_statement_1) & self._statement_matches(data, data_filter.filter_statement_2):
                         list_of_data.append(data)
             else:
                 for data in database:
-                    if self._create_query_search(
-                        self._get_nested(
-                            data, str(data_filter.filter_statement_1.attribute)
-                        ),
-                        str(data_filter.filter_statement_1.operator),
-                        data_filter.filter_statement_1.ref_value,
-                    ) | self._create_query_search(
-                        self._get_nested(
-                            data, str(data_filter.filter_statement_2.attribute)
-                        ),
-                        str(data_filter.filter_statement_2.operator),
-                        data_filter.filter_statement_2.ref_value,
-                    ):
+                    if self._statement_matches(data, data_filter.filter_statement_1) | self._statement_matches(data, data_filter.filter_statement_2):
                         list_of_data.append(data)
         else:
             for data in database:
-                if self._create_query_search(
-                    self._get_nested(
-                        data, str(data_filter.filter_statement_1.attribute)
-                    ),
-                    str(data_filter.filter_statement_1.operator),
-                    data_filter.filter_statement_1.ref_value,
-                ):
+                if self._statement_matches(data, data_filter.filter_statement_1):
                     list_of_data.append(data)
         return tuple(list_of_data)
 
